@@ -224,6 +224,51 @@ func runHistory(r *tokReader, mode ptrMode) string {
 	ptsOf := map[int]orb.Point{}
 	lims := []float64{0, c11LimSentinels[0], c11LimSentinels[1], c11LimSentinels[2]}
 	limTok := ""
+	// the last few slices the library returned (k-nearest and bound searches, nil-buffer and buffer
+	// forms) stay alive here together with the ids they held when they were returned; after EVERY
+	// later op they are read again: an answer the caller still holds may not change under a later
+	// call (marker `EA! <op index of the rewritten answer> <element> <id then> <id now>` behind the
+	// later op's answer; the driver's clause `earlier-answer-rewritten`).
+	type heldAnswer struct {
+		op  int
+		ps  []orb.Pointer
+		ids []int
+	}
+	var held []heldAnswer
+	var fresh *heldAnswer
+	safeID := func(p orb.Pointer) (id int) {
+		if p == nil {
+			return -1 << 40
+		}
+		defer func() {
+			if recover() != nil {
+				id = -1<<40 + 1
+			}
+		}()
+		return qidInt(p)
+	}
+	hold := func(i int, ps []orb.Pointer) []orb.Pointer {
+		h := &heldAnswer{op: i, ps: ps, ids: make([]int, len(ps))}
+		for j, p := range ps {
+			h.ids[j] = safeID(p)
+		}
+		fresh = h
+		return ps
+	}
+	heldChanged := func() string {
+		for _, h := range held {
+			n := len(h.ps)
+			for j := 0; j < n; j++ {
+				if n > 512 && j == 256 { // long answers: both ends
+					j = n - 256
+				}
+				if now := safeID(h.ps[j]); now != h.ids[j] {
+					return fmt.Sprintf(" EA! %d %d %d %d", h.op, j, h.ids[j], now)
+				}
+			}
+		}
+		return ""
+	}
 	limsChanged := func() string {
 		want := [4]float64{0, c11LimSentinels[0], c11LimSentinels[1], c11LimSentinels[2]}
 		from := 1
@@ -357,9 +402,9 @@ func runHistory(r *tokReader, mode ptrMode) string {
 			call = func() string {
 				var out string
 				if m == 1 {
-					out = qids(q.KNearest(buf, p, k, lim...))
+					out = qids(hold(i, q.KNearest(buf, p, k, lim...)))
 				} else {
-					out = qids(q.KNearestMatching(buf, p, k, modFilter(m, rr), lim...))
+					out = qids(hold(i, q.KNearestMatching(buf, p, k, modFilter(m, rr), lim...)))
 				}
 				return out + limsChanged()
 			}
@@ -373,17 +418,26 @@ func runHistory(r *tokReader, mode ptrMode) string {
 			}
 			call = func() string {
 				if m == 1 {
-					return qids(q.InBound(buf, b))
+					return qids(hold(i, q.InBound(buf, b)))
 				}
-				return qids(q.InBoundMatching(buf, b, modFilter(m, rr)))
+				return qids(hold(i, q.InBoundMatching(buf, b, modFilter(m, rr))))
 			}
 		default:
 			return "badcase op " + op
 		}
+		fresh = nil
 		out := guard(call)
-		res = append(res, out)
 		if out == "panic" {
+			res = append(res, out)
 			return strings.Join(res, " ; ")
+		}
+		out += heldChanged()
+		res = append(res, out)
+		if fresh != nil && len(fresh.ps) > 0 {
+			if len(held) == 6 {
+				held = append(held[:0], held[1:]...)
+			}
+			held = append(held, *fresh)
 		}
 	}
 	res = append(res, "T "+q.VerifDump(qid))
@@ -715,6 +769,25 @@ func genC11(c *Ctx) {
 		genC11Bulk(c, 500, []int{1100, 2100, 1100, 4100}[c.Shard%4])
 	}
 
+	// ---- piles: many pointers at ONE point, and points one ulp apart ------------------------
+	// pointers with the same point form a chain one node per pointer; points one ulp apart (around 0:
+	// denormals) need a thousand halvings of the cell to be separated: trees far deeper than any
+	// grid or general-position history builds (64, 128, 256, 1024 levels and more)
+	if c.Tier == "thorough" {
+		for _, n := range []int{65, 66, 129, 130, 257, 513, 1025, 1100, 2049} {
+			genC11Pile(c, n)
+		}
+		for i := 0; i < 40; i++ {
+			genC11NearPile(c)
+		}
+	} else {
+		genC11Pile(c, []int{65, 66, 67, 129}[c.Shard%4])
+		genC11Pile(c, []int{257, 130, 1025, 258}[c.Shard%4])
+		for i := 0; i < 6; i++ {
+			genC11NearPile(c)
+		}
+	}
+
 	// ---- random histories ------------------------------------------------------------------
 	maxOps := 60
 	if c.Tier == "thorough" {
@@ -806,6 +879,144 @@ func genC11(c *Ctx) {
 			c.Case("hist", fmt.Sprintf("%s %d %s", b.tok(), n, strings.Join(ops, " ")))
 		}
 	}
+}
+
+// c11EmitHist emits a history over a drawn pointer mode.
+func c11EmitHist(c *Ctx, lo, hi orb.Point, ops []string) {
+	if pm := c11PtrModeTok(c.Rng); pm != "" {
+		c.Case("histP", fmt.Sprintf("%s %s %s %d %s", pm, fpt(lo), fpt(hi), len(ops), strings.Join(ops, " ")))
+	} else {
+		c.Case("hist", fmt.Sprintf("%s %s %d %s", fpt(lo), fpt(hi), len(ops), strings.Join(ops, " ")))
+	}
+}
+
+// genC11Pile: N pointers (distinct objects) with the SAME point — on a midline, in general position,
+// on the tree bound, the single-point bound —, a few other points and removals in between, then the
+// whole-bound search, k-nearest with k = N-1, N, N+1 (1 in 3 with a buffer), Find, and removals
+// (all N up to 300 pointers, else 300) with bound searches in between; the dump closes the history
+// (clause `contents-multiset`).
+func genC11Pile(c *Ctx, N int) {
+	r := c.Rng
+	lo, hi := orb.Point{-10, -10}, orb.Point{10, 10}
+	var p orb.Point
+	switch r.Intn(6) {
+	case 0:
+		p = orb.Point{0, 0}
+	case 1:
+		p = orb.Point{10, 10}
+	case 2:
+		p = orb.Point{-10, 2.5}
+	case 3:
+		lo, hi = orb.Point{1, 1}, orb.Point{1, 1}
+		p = orb.Point{1, 1}
+	case 4:
+		lo, hi = orb.Point{0.1, -1.0 / 3}, orb.Point{0.7, 2.9}
+		p = orb.Point{0.1 + r.Float64()*0.6, r.Float64()*2.9}
+	default:
+		p = orb.Point{r.Float64()*20 - 10, r.Float64()*20 - 10}
+	}
+	other := func() orb.Point {
+		return orb.Point{lo[0] + float64(r.Intn(9))/8*(hi[0]-lo[0]), lo[1] + float64(r.Intn(9))/8*(hi[1]-lo[1])}
+	}
+	var ops []string
+	id := 0
+	var pile []int
+	for len(pile) < N {
+		id++
+		switch x := r.Intn(40); {
+		case x == 0:
+			ops = append(ops, fmt.Sprintf("a %d %s", id, fpt(other())))
+		case x == 1 && len(pile) > 0:
+			j := r.Intn(len(pile))
+			ops = append(ops, fmt.Sprintf("ri %d %s", pile[j], fpt(p)))
+			pile = append(pile[:j], pile[j+1:]...)
+		default:
+			ops = append(ops, fmt.Sprintf("a %d %s", id, fpt(p)))
+			pile = append(pile, id)
+		}
+	}
+	whole := fmt.Sprintf("b %s %s 1 0", fpt(lo), fpt(hi))
+	ops = append(ops, whole, "f "+fpt(p))
+	for _, k := range []int{N - 1, N, N + 1, N + 40} {
+		o := fmt.Sprintf("k %s %d 1 0 -", fpt([]orb.Point{p, other()}[r.Intn(2)]), k)
+		if r.Intn(3) == 0 {
+			o = "kB" + o[1:] + fmt.Sprintf(" 0 %d", k)
+		}
+		ops = append(ops, o)
+	}
+	ops = append(ops, fmt.Sprintf("k %s %d 2 %d %s", fpt(p), N, r.Intn(2), fb(40)))
+	nrem := N
+	if nrem > 300 {
+		nrem = 300
+	}
+	for i := 0; i < nrem; i++ {
+		switch r.Intn(3) {
+		case 0:
+			j := r.Intn(len(pile))
+			ops = append(ops, fmt.Sprintf("ri %d %s", pile[j], fpt(p)))
+		case 1:
+			j := r.Intn(len(pile))
+			ops = append(ops, fmt.Sprintf("rs %d %s", pile[j], fpt(p)))
+		default:
+			ops = append(ops, "rp "+fpt(p))
+		}
+		if r.Intn(60) == 0 {
+			ops = append(ops, whole)
+		}
+	}
+	ops = append(ops, whole, fmt.Sprintf("k %s %d 1 0 -", fpt(p), N))
+	c11EmitHist(c, lo, hi, ops)
+}
+
+// genC11NearPile: 2..40 points one ulp apart (in x, in y, or both) around a base of small or
+// ordinary magnitude: the cells that separate them are 2^-60 .. 2^-1070 of the bound.
+func genC11NearPile(c *Ctx) {
+	r := c.Rng
+	lo, hi := orb.Point{-10, -10}, orb.Point{10, 10}
+	if r.Intn(4) == 0 {
+		lo, hi = orb.Point{-3, -7.5}, orb.Point{12, 9}
+	}
+	bases := []float64{0, 1e-30, -1e-200, 5e-324, -2.5e-310, 1, 2.5, -7.3, 1e-17, math.Ldexp(1, -64), math.Ldexp(1, -66), -math.Ldexp(1, -130)}
+	bx, by := bases[r.Intn(len(bases))], bases[r.Intn(len(bases))]
+	mode := r.Intn(3)
+	M := 2 + r.Intn(39)
+	pts := make([]orb.Point, M)
+	x, y := bx, by
+	for i := range pts {
+		pts[i] = orb.Point{x, y}
+		if mode != 1 {
+			x = math.Nextafter(x, 20)
+		}
+		if mode != 0 {
+			y = math.Nextafter(y, 20)
+		}
+	}
+	var ops []string
+	var live []int
+	for i, j := range r.Perm(M) {
+		ops = append(ops, fmt.Sprintf("a %d %s", i+1, fpt(pts[j])))
+		live = append(live, j)
+		if r.Intn(8) == 0 { // the same point once more
+			ops = append(ops, fmt.Sprintf("a %d %s", 1000+i, fpt(pts[j])))
+		}
+	}
+	whole := fmt.Sprintf("b %s %s 1 0", fpt(lo), fpt(hi))
+	ops = append(ops, whole,
+		fmt.Sprintf("b %s %s 1 0", fpt(pts[0]), fpt(pts[M-1])),
+		fmt.Sprintf("b %s %s 1 0", fpt(pts[M/2]), fpt(pts[M/2])),
+		fmt.Sprintf("k %s %d 1 0 -", fpt(pts[r.Intn(M)]), M+3),
+		fmt.Sprintf("k %s %d 1 0 -", fpt(orb.Point{1, -2}), M),
+		"f "+fpt(pts[r.Intn(M)]))
+	for i := 0; i < M; i++ {
+		j := live[r.Intn(len(live))]
+		if r.Intn(2) == 0 {
+			ops = append(ops, "rp "+fpt(pts[j]))
+		} else {
+			ops = append(ops, "f "+fpt(pts[j]))
+		}
+	}
+	ops = append(ops, whole)
+	c11EmitHist(c, lo, hi, ops)
 }
 
 // c11PtrModeTok draws the pointer kinds of a history: "" = op `hist` (every pointer a *qpt), else the
